@@ -60,6 +60,9 @@ func NewPsUnpacker() *PsUnpacker {
 		preVideoRtpts: -1,
 		preAudioRtpts: -1,
 		waitSpsFlag:   true,
+		// 注意，AvPacketPt的零值是G711U。收到psm之前不知道流的编码类型，此时的数据不能按G711U回调给上层
+		audioPayloadType: base.AvPacketPtUnknown,
+		videoPayloadType: base.AvPacketPtUnknown,
 	}
 	p.list.InitMaxSize(maxUnpackRtpListSize)
 
@@ -577,6 +580,10 @@ func (p *PsUnpacker) iterateNaluByStartCode(code int, pts, dts int64) {
 
 func (p *PsUnpacker) onAvPacketWrap(packet *base.AvPacket) {
 	p.onAvPacketWrapCount++
+	if packet.PayloadType == base.AvPacketPtUnknown {
+		// 还没有收到psm（比如从gop中间开始接收的流），不知道编码类型，丢弃
+		return
+	}
 	//nazalog.Debugf("PsUnpacker > onAvPacketWrap. packet=%s", packet.DebugString())
 	if packet.IsVideo() {
 		// 注意，nalu前面的start code可能是3字节，也可能是4字节
